@@ -17,9 +17,10 @@ func init() {
 	vfRegister("VF_C16_flags", VF_C16_flags)
 	vfRegister("VF_C17_decision", VF_C17_decision)
 	vfRegister("VF_C08_cwd", VF_C08_cwd)
+	vfRegister("VF_C03_shipped_params", VF_C03_shipped_params)
 }
 
-const vfMenuSize = 18
+const vfMenuSize = 20
 
 type vfOut struct{ text string }
 
@@ -40,7 +41,8 @@ func vfSvc(ctor string, args ...any) input.Service {
 //	9/10 shared service with a missing service / parameter, 11/12 cycle / scope defect behind
 //	a missing service in the same list, 13 parameter cycle + missing parameter,
 //	14/15 a value service whose field / call has a missing service / parameter,
-//	16 valid with parameters only, 17 valid and empty
+//	16 valid with parameters only, 17 valid and empty, 18 valid with a todo service sorted
+//	first, 19 valid with parameter strings that look like argument notations
 func vfMenu(k int) input.Input {
 	shared, contextual := input.ScopeShared, input.ScopeContextual
 	switch k {
@@ -84,6 +86,11 @@ func vfMenu(k int) input.Input {
 		return input.Input{Params: map[string]any{"p": 1, "q": "%p%"}}
 	case 17: // valid: nothing at all
 		return input.Input{}
+	case 18: // valid: a todo service whose name sorts before the services that use it
+		yes := true
+		return input.Input{Services: map[string]input.Service{"a": {Todo: &yes}, "b": vfSvc("NewB", "@a"), "c": vfSvc("NewC", "@b")}}
+	case 19: // valid: parameter strings that look like argument notations are plain strings
+		return input.Input{Params: map[string]any{"h": "@handle", "t": "!tagged x", "v": "!value V", "g": "$gontainer"}, Services: map[string]input.Service{"svc": vfSvc("NewX", "%h%")}}
 	case 7: // a cycle together with a missing service and a missing parameter
 		return input.Input{Services: map[string]input.Service{"a": vfSvc("NewA", "@b", "@nope"), "b": vfSvc("NewB", "@a", "%nope%")}}
 	case 8: // shared-on-contextual together with a missing service in a decorator
@@ -258,6 +265,18 @@ func VF_C10_contract() {
 		vfAssert(len(r.writes) == 1 && r.writes[0] != "", "success: the complete generated source was written")
 		vfAssert(!strings.Contains(r.stdout, "Errors:"), "success: no error list is printed")
 		vfAssert(len(r.fmtLog) == 2 && r.fmtLog[0] == "format" && r.fmtLog[1] == "imports", "success: the text went through gofmt and goimports before being written")
+		if len(r.writes) == 1 && !stub {
+			for name := range sc.inputs["a.yaml"].Services {
+				if aMatchedOnce(sc) {
+					vfAssert(strings.Count(r.writes[0], "c.OverrideService("+vfQuote(name)+", s)") == 1, "success: every declared service is registered exactly once")
+				}
+			}
+			for name := range sc.inputs["a.yaml"].Params {
+				if aMatchedOnce(sc) {
+					vfAssert(strings.Count(r.writes[0], "c.OverrideParam("+vfQuote(name)+", ") == 1, "success: every declared parameter is registered exactly once")
+				}
+			}
+		}
 	} else {
 		vfAssert(len(r.writes) == 0 && len(r.touched) == 0, "failure: the -o path is left exactly as it was")
 		vfAssert(wrote == 0 || sc.writeErr, "failure: nothing is written unless the write itself is what failed")
@@ -309,7 +328,7 @@ func VF_C10_contract() {
 	if !envFault && (sc.formatErr || sc.importErr || sc.writeErr) {
 		vfAssert(r.err != nil, "a formatting or write failure fails the build")
 	}
-	valid := sc.menu == 0 || sc.menu == 16 || sc.menu == 17
+	valid := sc.menu == 0 || sc.menu >= 16
 	if !envFault && aMatched && !valid {
 		vfAssert(r.err != nil, "a configuration with a grammar, reference, cycle or scope defect is rejected")
 		vfAssert(!strings.Contains(r.stdout, "Generate code"), "a rejected configuration never reaches code generation")
@@ -444,4 +463,37 @@ func VF_C08_cwd() {
 		vfAssert(r1.writes[0] == r2.writes[0], "the generated file does not depend on the working directory")
 	}
 	vfReach("C08_cwd")
+}
+
+// aMatchedOnce: a.yaml is part of the merged configuration.
+func aMatchedOnce(sc vfScenario) bool {
+	n := 0
+	for pi, fs := range sc.globFiles {
+		if sc.globErr[pi] {
+			continue
+		}
+		for _, f := range fs {
+			if runner.VfCanon(f) == "a.yaml" {
+				n++
+			}
+		}
+	}
+	return n == 1
+}
+
+// VF_C03_shipped_params: through the wiring as shipped (internal/gontainer):
+// in `parameters` only the %...% notation is special; strings that look like
+// the argument notations of services (@name, !tagged t, !value v, $gontainer)
+// are plain strings and evaluate to themselves.
+func VF_C03_shipped_params() {
+	sc := vfScenario{patterns: []string{"P0"}, globErr: []bool{false}, globFiles: [][]string{{"a.yaml"}},
+		readErr: map[string]bool{}, yamlErr: map[string]bool{}, inputs: map[string]input.Input{"a.yaml": vfMenu(19)}}
+	r := vfRunBuild(sc, false, false, false, false)
+	vfAssert(r.err == nil && len(r.writes) == 1, "parameter strings that look like argument notations are accepted")
+	if len(r.writes) == 1 {
+		for _, lit := range []string{"@handle", "!tagged x", "!value V", "$gontainer"} {
+			vfAssert(strings.Contains(r.writes[0], "return "+vfQuote(lit)+", nil"), "... and evaluate to themselves")
+		}
+	}
+	vfReach("C03_shipped_params")
 }
